@@ -25,6 +25,7 @@ type c04Cfg struct {
 	NoNack      []bool `json:"no_nack"`
 	Readers     int    `json:"readers"`
 	RetxStallUs int64  `json:"retx_stall_us"` // downstream stalls this long on every 2nd retransmission
+	AppStallUs  int64  `json:"app_stall_us"`  // downstream takes this long to return after it has put an application packet on the wire
 }
 
 type c04Op struct {
@@ -66,6 +67,9 @@ func (c04) Gen(seed int64, tier string, avoid []string) *Plan {
 	}
 	if chance(r, 400) {
 		cfg.RetxStallUs = int64(pick(r, 50, 500, 3000))
+	}
+	if chance(r, 300) {
+		cfg.AppStallUs = int64(pick(r, 200, 3000)) // fast feedback: a NACK can arrive before Write has returned
 	}
 	p.PoolDrop = pick(r, 0, 0, 100, 500)
 	n := pick(r, 10, 30, 80, 200)
@@ -174,6 +178,7 @@ type c04Sent struct {
 	payload    []byte
 	pad        int
 	enter, ret int // step numbers
+	wire       int // step at which the next writer had the packet (it is on the wire from then on)
 	failed     bool
 }
 
@@ -247,6 +252,13 @@ func (c04) Run(e *Env) {
 				}
 				rec := &c04Retx{gid: g.ID, hdr: h.Clone(), payload: append([]byte{}, pl...)}
 				c04LogRetx(e, &retx, rec)
+			} else if rec, ok := a.Get("rec").(*c04Sent); ok {
+				// an application packet: it is on the wire now; the transport may take a while to return
+				c04Wire(e, rec)
+				if cfg.AppStallUs > 0 {
+					e.Fault("stall_writer_after_send")
+					simrt.Sleep(us(cfg.AppStallUs))
+				}
 			}
 			return len(pl), nil
 		}))
@@ -285,7 +297,7 @@ func (c04) Run(e *Env) {
 				}
 				rec := &c04Sent{seq: o.Seq, hdr: h.Clone(), payload: append([]byte{}, pl...), pad: o.Pad}
 				c04LogSend(e, st, rec)
-				_, err := writers[s].Write(h, plBuf, interceptor.Attributes{})
+				_, err := writers[s].Write(h, plBuf, interceptor.Attributes{"rec": rec})
 				c04SendDone(e, rec, err != nil)
 				if err != nil {
 					e.Violatef("oracle", "c04:write-error", "Write of seq %d (%d bytes, pad form %d) failed: %v", o.Seq, o.Len, o.Pad, err)
@@ -400,7 +412,7 @@ func c04LogRetx(e *Env, retx *[]*c04Retx, r *c04Retx) {
 
 //go:norace
 func c04LogSend(e *Env, st *c04Stream, r *c04Sent) {
-	r.enter, r.ret = e.S.Step(), 1<<60
+	r.enter, r.ret, r.wire = e.S.Step(), 1<<60, 1<<60
 	if len(st.sent) == 0 {
 		r.u = 1<<32 + int64(r.seq)
 		st.hiU = r.u
@@ -415,6 +427,9 @@ func c04LogSend(e *Env, st *c04Stream, r *c04Sent) {
 
 //go:norace
 func c04SendDone(e *Env, r *c04Sent, failed bool) { r.ret, r.failed = e.S.Step(), failed }
+
+//go:norace
+func c04Wire(e *Env, r *c04Sent) { r.wire = e.S.Step() }
 
 //go:norace
 func c04LogNack(e *Env, nacks *[]*c04Nack, n *c04Nack) {
@@ -536,8 +551,8 @@ func c04Status(cfg c04Cfg, st *c04Stream, seq uint16, t0, t1 int) (must, mustNot
 			for _, s := range st.sent {
 				if s.u == u && !s.failed {
 					n++
-					if s.ret < t0 {
-						done = true
+					if s.wire < t0 {
+						done = true // on the wire before the NACK was read (the peer can only ask for what it could miss)
 					}
 				}
 			}
